@@ -617,6 +617,33 @@ def run_c13(ctx):
                        "related keys get distinct ids; id strings of decoded length != 33 rejected; Eq/Ord/Hash agree with bytes on random id pairs")
 
 
+# ------------------------------------------------------------------ C04
+def c04_oracle(op, impl):
+    t = op.split(" ")
+    be = t[1] if len(t) > 1 else "?"
+    if impl == "panic" or impl.startswith("panic"):
+        return ("panic on input: " + t[0], "%s/%s/panic" % (be, t[0]))
+    return None
+
+
+def run_c04(ctx):
+    nt = lambda o, i: (o.split(" ")[0], o.split(" ")[1], len(o) // 64, i[:10])
+    run_stream(ctx, "malformed", ["c04"], policy="okerr", oracle=c04_oracle, nontrivial=nt)
+    def keys_oracle(o, i):
+        r = c04_oracle(o, i)
+        if r:
+            return r
+        if o.startswith("o.key") and i.startswith("err"):
+            return ("an accepted key could not be used again: " + i[:80], "%s/key/unusable" % o.split(" ")[1])
+        return None
+    run_stream(ctx, "keys", ["c08"], policy="okerr", oracle=keys_oracle, nontrivial=nt)
+    run_stream(ctx, "text", ["c09"], policy="okerr", oracle=c04_oracle, nontrivial=nt)
+    ctx.cov["rule"] = ("every FromStr of every back end on the C09 string stream; tokens with every decoded payload length 0..700 (random / zeros / ones) for both purposes; PIE/PBKW/PKE blobs of every length 0..300 "
+                       "(PBKW cost parameters inside the stated budget); every key byte string of the C08 stream and every accepted key then displayed, identified, cloned, re-parsed and used; each case under catch_unwind, "
+                       "process death bisected to the offending line; distinct = (op, back end, size class, outcome)")
+    ctx.cov["partial"] = "aborts inside aws-lc/libsodium, allocator failure and memory safety of the C libraries are outside what the Lean model can exhibit; thorough tier adds a valgrind run as supporting evidence when available"
+
+
 PROPS = {
     "C15": {"run": run_c15},
     "C09": {"run": run_c09},
@@ -624,6 +651,7 @@ PROPS = {
     "C01": {"run": run_c01},
     "C02": {"run": run_c02},
     "C03": {"run": run_c03},
+    "C04": {"run": run_c04},
     "C05": {"run": run_c05},
     "C06": {"run": run_c06},
     "C07": {"run": run_c07},
